@@ -7,14 +7,18 @@ import (
 	"crypto/ecdh"
 	"crypto/rand"
 	"fmt"
-	"github.com/hashicorp/nodeenrollment/rotation"
+	"io"
 	mrand "math/rand"
+	"net"
 	"sort"
 	"strings"
+	"time"
 
 	wrapping "github.com/hashicorp/go-kms-wrapping/v2"
 	"github.com/hashicorp/nodeenrollment"
+	"github.com/hashicorp/nodeenrollment/protocol"
 	"github.com/hashicorp/nodeenrollment/registration"
+	"github.com/hashicorp/nodeenrollment/rotation"
 	"github.com/hashicorp/nodeenrollment/storage/inmem"
 	"github.com/hashicorp/nodeenrollment/types"
 	"google.golang.org/protobuf/proto"
@@ -511,7 +515,7 @@ func (r *run) flow(op map[string]any, ln *Line) {
 	add("root.cur.priv", roots.Current.PrivateKeyPkcs8)
 	add("root.next.priv", roots.Next.PrivateKeyPkcs8)
 	var tokenStr string
-	if name == "token" {
+	if name == "token" || name == "dialtoken" {
 		_, tokenStr, err = registration.CreateServerLedActivationToken(ctx, srv, &types.ServerLedRegistrationRequest{}, sopts...)
 		if err != nil {
 			fail(err)
@@ -535,20 +539,77 @@ func (r *run) flow(op map[string]any, ln *Line) {
 		fail(err)
 		return
 	}
-	if name != "token" {
+	if name == "dial" || name == "dialtoken" {
+		// registration driven by protocol.Dial against a real InterceptingListener: the node's first dial fetches
+		// and stores its credentials, then authenticates
+		if name == "dial" {
+			if _, err := registration.AuthorizeNode(ctx, srv, req, sopts...); err != nil {
+				fail(err)
+				return
+			}
+		}
+		base, err := net.Listen("tcp", "127.0.0.1:0")
+		if err != nil {
+			fail(err)
+			return
+		}
+		il, err := protocol.NewInterceptingListener(&protocol.InterceptingListenerConfiguration{Context: ctx, Storage: srv, BaseListener: base, Options: sopts})
+		if err != nil {
+			base.Close()
+			fail(err)
+			return
+		}
+		go func() {
+			for {
+				c, err := il.Accept()
+				if err != nil {
+					if te, ok := err.(interface{ Temporary() bool }); ok && te.Temporary() {
+						continue
+					}
+					return
+				}
+				go func() { io.Copy(io.Discard, c); c.Close() }()
+			}
+		}()
+		dctx, cancel := context.WithTimeout(ctx, 10*time.Second)
+		conn, derr := protocol.Dial(dctx, node, base.Addr().String(), nopts...)
+		cancel()
+		if conn != nil {
+			conn.Close()
+		}
+		il.Close()
+		if derr != nil {
+			fail(derr)
+			return
+		}
+		// a second load with the wrapper must give the keys back
+		back, lerr := types.LoadNodeCredentials(ctx, node, nodeenrollment.CurrentId, nopts...)
+		if lerr != nil || !bytes.Equal(back.CertificatePrivateKeyPkcs8, creds.CertificatePrivateKeyPkcs8) || !bytes.Equal(back.EncryptionPrivateKeyBytes, creds.EncryptionPrivateKeyBytes) {
+			fail(fmt.Errorf("stored node credentials do not load back: %v", lerr))
+			return
+		}
+		kid, _ := nodeenrollment.KeyIdFromPkix(creds.CertificatePublicKeyPkix)
+		if ni, err := types.LoadNodeInformation(ctx, srv, kid, sopts...); err == nil {
+			add("server.enc.priv", ni.ServerEncryptionPrivateKeyBytes)
+		}
+		name = "done-by-dial"
+	}
+	if name != "token" && name != "done-by-dial" {
 		if _, err := registration.AuthorizeNode(ctx, srv, req, sopts...); err != nil {
 			fail(err)
 			return
 		}
 	}
-	resp, err := registration.FetchNodeCredentials(ctx, srv, req, sopts...)
-	if err != nil {
-		fail(err)
-		return
-	}
-	if _, err := creds.HandleFetchNodeCredentialsResponse(ctx, node, resp, nopts...); err != nil {
-		fail(err)
-		return
+	if name != "done-by-dial" {
+		resp, err := registration.FetchNodeCredentials(ctx, srv, req, sopts...)
+		if err != nil {
+			fail(err)
+			return
+		}
+		if _, err := creds.HandleFetchNodeCredentialsResponse(ctx, node, resp, nopts...); err != nil {
+			fail(err)
+			return
+		}
 	}
 	_, keyId, _ := nodeenrollment.SubjectKeyInfoAndKeyIdFromPubKey(w.EnsureCertKey("kx").Pub)
 	_ = keyId
